@@ -167,6 +167,9 @@ fn ts(r: usize) -> Option<TimeoutSettings> { Some(TimeoutSettings::new(Some(Dura
 fn setup(pos: Pos, r: usize, t: &mut Tape) -> Setup {
     let port = 20_000 + t.draw(CFG, 1000) as u16;
     let addr = SocketAddr::new(SERVER_IP, port);
+    // the servers' own choices (which malformed reply, challenge values, cut points) come from a tape
+    // of their own: the same in the fault-free and the faulty run of the case
+    let wseed = t.full_u64(CFG);
     let call = |entry: Entry| Call { entry, ip: SERVER_IP, port: Some(port), default_port: port, timeout: ts(r) };
     match pos {
         Pos::ValveInfo | Pos::ValvePlayers | Pos::ValveRules => {
@@ -185,7 +188,7 @@ fn setup(pos: Pos, r: usize, t: &mut Tape) -> Setup {
                     let mut s = ValveServer::new(st.clone());
                     s.outcomes[k] = to_vm(v);
                     s.enc[k].challenge_rounds = rounds;
-                    let mut w = World::new(Tape::replay(Default::default()));
+                    let mut w = World::new(Tape::generate(wseed));
                     w.add_server(addr, Proto::Udp, Box::new(s));
                     w
                 }),
@@ -205,7 +208,7 @@ fn setup(pos: Pos, r: usize, t: &mut Tape) -> Setup {
                     s.ffow_payload = st.payload();
                     s.outcomes[3] = to_vm(v);
                     s.enc[3].challenge_rounds = rounds;
-                    let mut w = World::new(Tape::replay(Default::default()));
+                    let mut w = World::new(Tape::generate(wseed));
                     w.add_server(addr, Proto::Udp, Box::new(s));
                     w
                 }),
@@ -220,7 +223,7 @@ fn setup(pos: Pos, r: usize, t: &mut Tape) -> Setup {
                 make: Box::new(move |v| {
                     let mut s = Gs1Server::new(datagrams.clone());
                     s.outcomes = to_gm(v);
-                    let mut w = World::new(Tape::replay(Default::default()));
+                    let mut w = World::new(Tape::generate(wseed));
                     w.add_server(addr, Proto::Udp, Box::new(s));
                     w
                 }),
@@ -233,7 +236,7 @@ fn setup(pos: Pos, r: usize, t: &mut Tape) -> Setup {
             Setup {
                 call: call(Entry::Gs { version: 2, vars: false }),
                 make: Box::new(move |v| {
-                    let mut w = World::new(Tape::replay(Default::default()));
+                    let mut w = World::new(Tape::generate(wseed));
                     w.add_server(addr, Proto::Udp, Box::new(Gs2Server { st: st.clone(), outcomes: to_gm(v), attempts: 0, requests: Vec::new() }));
                     w
                 }),
@@ -254,7 +257,7 @@ fn setup(pos: Pos, r: usize, t: &mut Tape) -> Setup {
                     } else {
                         s.data_outcomes = to_gm(v);
                     }
-                    let mut w = World::new(Tape::replay(Default::default()));
+                    let mut w = World::new(Tape::generate(wseed));
                     w.add_server(addr, Proto::Udp, Box::new(s));
                     w
                 }),
@@ -269,7 +272,7 @@ fn setup(pos: Pos, r: usize, t: &mut Tape) -> Setup {
             Setup {
                 call: call(Entry::Quake { version }),
                 make: Box::new(move |v| {
-                    let mut w = World::new(Tape::replay(Default::default()));
+                    let mut w = World::new(Tape::generate(wseed));
                     w.add_server(addr, Proto::Udp, Box::new(QuakeServer { st: st.clone(), outcomes: to_gm(v), attempts: 0, requests: Vec::new() }));
                     w
                 }),
@@ -293,7 +296,7 @@ fn setup(pos: Pos, r: usize, t: &mut Tape) -> Setup {
                 make: Box::new(move |v| {
                     let mut s = Unreal2Server::new(info.clone(), rules.clone(), players.clone());
                     s.outcomes[k] = to_gm(v);
-                    let mut w = World::new(Tape::replay(Default::default()));
+                    let mut w = World::new(Tape::generate(wseed));
                     w.add_server(addr, Proto::Udp, Box::new(s));
                     w
                 }),
@@ -307,7 +310,7 @@ fn setup(pos: Pos, r: usize, t: &mut Tape) -> Setup {
                 make: Box::new(move |v| {
                     let mut s = McTcpServer::new(host.clone());
                     s.java_outcomes = to_mm(v);
-                    let mut w = World::new(Tape::replay(Default::default()));
+                    let mut w = World::new(Tape::generate(wseed));
                     w.add_server(addr, Proto::Tcp, Box::new(s));
                     w
                 }),
@@ -320,7 +323,7 @@ fn setup(pos: Pos, r: usize, t: &mut Tape) -> Setup {
             Setup {
                 call: call(Entry::McBedrock),
                 make: Box::new(move |v| {
-                    let mut w = World::new(Tape::replay(Default::default()));
+                    let mut w = World::new(Tape::generate(wseed));
                     w.add_server(addr, Proto::Udp, Box::new(McUdpServer { host: host.clone(), pings: Vec::new(), outcomes: to_mm(v), attempts: 0 }));
                     w
                 }),
@@ -340,7 +343,7 @@ fn setup(pos: Pos, r: usize, t: &mut Tape) -> Setup {
                 make: Box::new(move |v| {
                     let mut s = McTcpServer::new(host.clone());
                     s.legacy_outcomes = to_mm(v);
-                    let mut w = World::new(Tape::replay(Default::default()));
+                    let mut w = World::new(Tape::generate(wseed));
                     w.add_server(addr, Proto::Tcp, Box::new(s));
                     w
                 }),
@@ -354,7 +357,7 @@ fn setup(pos: Pos, r: usize, t: &mut Tape) -> Setup {
                 make: Box::new(move |v| {
                     let mut s = OneShotServer::new(vec![0xfe, 0x01], st.datagram());
                     s.outcomes = to_gm(v);
-                    let mut w = World::new(Tape::replay(Default::default()));
+                    let mut w = World::new(Tape::generate(wseed));
                     w.add_server(addr, Proto::Udp, Box::new(s));
                     w
                 }),
@@ -374,6 +377,7 @@ fn combo_case(cell: u64, rep: u64, mut t: Tape, detail: bool) -> (CaseOut, Tape)
     let subset = [0b011u8, 0b101, 0b110, 0b111][(cell / 2 % 4) as usize];
     let (r, k) = [(1usize, 1usize), (2, 1), (2, 2), (3, 1), (3, 2), (3, 3)][(cell / 8 % 6) as usize];
     let port = 20_000 + t.draw(CFG, 1000) as u16;
+    let wseed = t.full_u64(CFG);
     let addr = SocketAddr::new(SERVER_IP, port);
     let silent: Vec<O> = vec![O::S; k];
     let _ = rep;
@@ -396,7 +400,7 @@ fn combo_case(cell: u64, rep: u64, mut t: Tape, detail: bool) -> (CaseOut, Tape)
                         }
                     }
                 }
-                let mut w = World::new(Tape::replay(Default::default()));
+                let mut w = World::new(Tape::generate(wseed));
                 w.add_server(addr, Proto::Udp, Box::new(s));
                 w
             }),
@@ -416,7 +420,7 @@ fn combo_case(cell: u64, rep: u64, mut t: Tape, detail: bool) -> (CaseOut, Tape)
                         s.outcomes[p] = to_vm(&sil);
                     }
                 }
-                let mut w = World::new(Tape::replay(Default::default()));
+                let mut w = World::new(Tape::generate(wseed));
                 w.add_server(addr, Proto::Udp, Box::new(s));
                 w
             }),
